@@ -1,9 +1,14 @@
 """C06 — registries consult exactly their current base chain, in resolution order."""
-from . import regcommon
+from . import regcommon, worldcommon
 
 THEOREMS = ["ZI.RO.C03_ro_eq_c3", "ZI.RO.roFull_valid", "ZI.Lookup.lookupRec_eq_first"]
 PROFILE = dict(weights=[4, 0.7, 1.5, 0.5, 4, 0.2, 0], queries=["lookup", "lookupAll", "subs", "ro"], nregs=(2, 6),
                regbases=[0, 1, 1, 1, 2, 2], extra_queries=2, arity=[0, 1, 1, 2], steps=(6, 30), steps_big=(10, 60), decls=False)
+
+
+# the base chain consulted must be the current one also when specification changes arrive between a re-basing and the next lookup
+WORLD_PROFILE = dict(weights=[3, 0.6, 1, 0.3, 1.5, 1.5, 0.8, 3, 0.3], nregs=(2, 5), extra=1, provq=0, arity=[1, 1, 2], quiet=0.3,
+                     scen_hit=0.02, scen_rbases=0.15, scen_rebuild=0.05)
 
 
 def check(tier):
@@ -12,7 +17,9 @@ def check(tier):
         "registry DAGs of 2-6 registries (chains to depth 5, diamonds), both flavours alternating, re-basing at every level interleaved with registrations in every "
         "member and lookups from every registry; distinct_nontrivial = `ro` observations checked against the C3 order of the current base graph",
         "ro_queries",
-        "registry-layer correspondence (ZI.Registry.setBases/verify/changed vs adapter.py) ")
+        "registry-layer correspondence (ZI.Registry.setBases/verify/changed vs adapter.py) ",
+        extra_stream=worldcommon.twin_stream("C06", WORLD_PROFILE, dict(quick=30, thorough=600),
+                                             ("lookup", "lookup1", "lookupAll", "names", "qadapter", "subs", "subscribers")))
 
 
 def replay(path):
